@@ -27,7 +27,10 @@ def demo_info(d):
         place = re.sub(r'^/tmp/[^/]+/', '', place)
     t = re.search(r'--test\s+([\w\-]+)', src)
     p = re.search(r'-p\s+([\w\-]+)', src)
-    return place, (p.group(1) if p else None), (t.group(1) if t else None)
+    crate, test = (p.group(1) if p else None), (t.group(1) if t else None)
+    if crate and test:
+        place = f'{crate}/tests/{test}.rs'   # demonstrations always go under the crate's tests/ directory
+    return place, crate, test
 
 def run_demo(d, place, crate, test):
     os.makedirs(os.path.dirname(f'{W}/{place}'), exist_ok=True)
@@ -40,6 +43,18 @@ def process(d, pid, variant):
     tag = f'{pid}-{variant}'
     outp = f'{RES}/{tag}.json'
     if os.path.exists(outp):
+        r = json.load(open(outp))
+        if (r.get('demo') or {}).get('passes_without_change') is None and r.get('applies'):
+            place, crate, test = demo_info(d)
+            if place and crate and test:
+                clean()
+                ok0, o0 = run_demo(d, place, crate, test)
+                sh(f'git -C {W} apply {d}/patch.diff')
+                ok1, o1 = run_demo(d, place, crate, test)
+                clean()
+                r['demo'] = {'place': place, 'crate': crate, 'test': test, 'passes_without_change': ok0, 'passes_with_change': ok1, 'tail_with': o1[-600:]}
+                json.dump(r, open(outp, 'w'), indent=1)
+                print(tag, 'demo refreshed', ok0, ok1, flush=True)
         return
     r = {'id': tag, 'property': pid, 'dir': d, 'started': time.ctime()}
     patch = f'{d}/patch.diff'
